@@ -346,6 +346,90 @@ def parse_units(u):
     return xs
 
 
+def parse_units0(u):
+    if u == "-":
+        return []
+    try:
+        xs = [int(x) for x in u.split(".")]
+    except ValueError:
+        return None
+    if any(not (0 <= x <= 65535) for x in xs):
+        return None
+    return xs
+
+
+def zstr(xs):
+    out = []
+    for x in xs:
+        if x == 0:
+            break
+        out.append(x)
+    return out
+
+
+class CmpRef:
+    def step(self, t):
+        k = t[1]; a = t[2:]
+        if k in ("compare",) and len(a) == 2:
+            return k if parse_units(a[0]) is not None and parse_units0(a[1]) is not None else None
+        if k in ("comparestr", "equals", "eqi", "cmpi") and len(a) == 2:
+            return k if parse_units(a[0]) is not None and parse_units(a[1]) is not None else None
+        if k == "comparesub" and len(a) == 5:
+            x = parse_units(a[0]); y = parse_units0(a[3])
+            if x is None or y is None or not a[1].isdigit() or not a[2].isdigit():
+                return None
+            p1, c1 = int(a[1]), int(a[2])
+            if p1 + c1 > len(x):
+                return None
+            if a[4] == "npos":
+                return "comparesub-npos"
+            if not a[4].isdigit() or int(a[4]) > len(y):
+                return None
+            return k
+        return None
+
+
+def gen_cmp(r, maxops):
+    ref = CmpRef(); ops = []
+    nops = r.range(2, maxops)
+
+    def word(n, alpha):
+        return [r.choice(alpha) for _ in range(n)]
+
+    def us(xs):
+        return ".".join(str(x) for x in xs) or "-"
+    while len(ops) < nops:
+        alpha = r.choice([[65, 66, 97, 98], [65, 97, 90, 122, 64, 91, 96, 123], [1, 2, 3], [65, 97, 0x100, 0xFFFF, 0x8000]])
+        x = word(r.weighted([(0, 1), (1, 2), (2, 3), (3, 3), (r.range(4, 8), 1)]), alpha)
+        m = r.below(4)
+        if m == 0:
+            y = list(x)
+        elif m == 1:
+            y = list(x[:r.below(len(x) + 1)])
+        elif m == 2:
+            y = [c ^ 32 if (65 <= c <= 90 or 97 <= c <= 122) and r.chance(1, 2) else c for c in x]
+        else:
+            y = word(r.range(0, 5), alpha)
+        if y and r.chance(1, 3):
+            y[r.below(len(y))] = r.choice(alpha)
+        k = r.weighted([("compare", 4), ("comparestr", 3), ("comparesub", 4), ("equals", 3), ("eqi", 4), ("cmpi", 4)])
+        if k == "compare":
+            yy = list(y)
+            if r.chance(1, 5):
+                yy.insert(r.below(len(yy) + 1), 0)       # the buffer continues after a terminator
+            line = "cmp compare %s %s" % (us(x), us(yy))
+        elif k == "comparesub":
+            p1 = r.range(0, len(x)); c1 = r.range(0, len(x) - p1)
+            if r.chance(1, 6):
+                line = "cmp comparesub %s %d %d %s npos" % (us(x), p1, c1, us(y))
+            else:
+                line = "cmp comparesub %s %d %d %s %d" % (us(x), p1, c1, us(y), r.range(0, len(y)))
+        else:
+            line = "cmp %s %s %s" % (k, us(x), us(y))
+        _emit(ref, ops, line)
+    return ops
+
+
 class StrRef:
     """chars + whether m_data currently holds a buffer (needed only to *tag* the resize defect class)"""
     def __init__(self):
@@ -380,6 +464,28 @@ class StrRef:
                 return None
             if xs:
                 s.extend(xs); self.buf[i] = True
+        elif k in ("appz", "assignz") and n == 2:
+            xs = parse_units0(a[1])
+            if xs is None:
+                return None
+            z = zstr(xs)
+            if k == "assignz":
+                del s[:]; self.buf[i] = False
+            if z:
+                s.extend(z); self.buf[i] = True
+        elif k == "insz" and n == 3:
+            p = num(a[1]); xs = parse_units0(a[2])
+            if p is None or xs is None or p > len(s) or (not self.buf[i] and p != 0):
+                return None
+            z = zstr(xs)
+            s[p:p] = z
+            if z:
+                self.buf[i] = True
+        elif k == "assignp" and n == 3:
+            xs = parse_units0(a[1]); c = num(a[2])
+            if xs is None or c is None or c > len(xs) or any(x == 0 for x in xs[:c]):
+                return None
+            s[:] = xs[:c]; self.buf[i] = c > 0
         elif k == "appstr" and n == 2:
             j = num(a[1])
             if j is None or j >= NSTR:
@@ -652,7 +758,7 @@ def gen_pool(r, maxops):
     return ops
 
 
-REFS = {"oc": OcRef, "pool": PoolRef, "bmp": BmpRef, "vec": VecRef, "map": MapRef, "set": SetRef, "deq": DeqRef, "lst": LstRef, "str": StrRef}
+REFS = {"cmp": CmpRef, "oc": OcRef, "pool": PoolRef, "bmp": BmpRef, "vec": VecRef, "map": MapRef, "set": SetRef, "deq": DeqRef, "lst": LstRef, "str": StrRef}
 
 
 def tags(kind, ops):
@@ -661,6 +767,9 @@ def tags(kind, ops):
     out = []
     for o in ops:
         t = o.split()
+        if len(t) == 2 and t[0] == "arith" and t[1].isdigit():
+            out.append("arith")
+            continue
         if len(t) < 2 or t[0] != kind:
             return None
         try:
@@ -923,10 +1032,22 @@ def gen_str(r, maxops, defects=True):
         j = r.below(ns)
         k = r.weighted([("app", 9), ("appstr", 3), ("appsub", 3), ("appn", 4), ("push", 4), ("ins", 6), ("insn", 4), ("erase", 6),
                         ("eraseat", 3), ("clear", 1), ("resize", 4), ("reserve", 2), ("assign", 3), ("assignn", 1),
-                        ("assignsub", 4), ("substr", 4), ("swap", 2), ("new", 1), ("eraser", 3), ("assignit", 2)])
+                        ("assignsub", 4), ("substr", 4), ("swap", 2), ("new", 1), ("eraser", 3), ("assignit", 2),
+                        ("appz", 3), ("assignz", 2), ("insz", 2), ("assignp", 2)])
         c = r.range(1, 9)
         if k == "app":
             line = "str app %d %s" % (i, us(r.weighted([(0, 1), (1, 3), (r.range(2, 6), 5), (r.range(7, 20), 1)])))
+        elif k in ("appz", "assignz", "insz", "assignp"):
+            xs = [r.range(1, 9) for _ in range(r.range(0, 6))]
+            if k != "assignp" and xs and r.chance(1, 4):
+                xs[r.below(len(xs))] = 0          # the buffer continues after the terminator
+            u = ".".join(str(x) for x in xs) or "-"
+            if k == "insz":
+                line = "str insz %d %d %s" % (i, r.range(0, len(s)), u)
+            elif k == "assignp":
+                line = "str assignp %d %s %d" % (i, u, r.range(0, len(xs)))
+            else:
+                line = "str %s %d %s" % (k, i, u)
         elif k == "appstr":
             line = "str appstr %d %d" % (i, j)
         elif k == "appsub":
